@@ -2,10 +2,25 @@ package sim
 
 // extension points filled in as further properties get their workloads and oracles
 
-func (s *Sim) execMore(op Op) {}
+func (s *Sim) execMore(op Op) {
+	switch op.Kind {
+	case "reload":
+		s.execReload(op)
+	}
+}
 
-func (s *Sim) genMore(kind string) (Op, bool) { return Op{}, false }
+func (s *Sim) genMore(kind string) (Op, bool) {
+	switch kind {
+	case "reload":
+		return s.genReload()
+	}
+	return Op{}, false
+}
 
-func (s *Sim) oracleMore(op Op, evs []SIEvent, preds []PredCall) {}
+func (s *Sim) oracleMore(op Op, evs []SIEvent, preds []PredCall) {
+	s.oracleC02(op, evs)
+	s.oracleC05(op, evs)
+	s.oracleC16(op, evs)
+}
 
 func (s *Sim) checkDrainedMore() {}
